@@ -49,6 +49,12 @@ MACROS = ["mA", "mB", "mC"]
 def body_of(version):
     """version = [k, macro subset bitmask, xml?]"""
     k, mask, xml = version
+    if k == 0:
+        # a version that does not compile (mask selects the kind of error)
+        return ['<html><b>unclosed</i></html>',
+                '<html><p tal:content="1 +">x</p></html>',
+                '<html><p tal:define="x">x</p></html>',
+                '<html><p tal:nosuch="1">x</p></html>'][mask % 4]
     parts = []
     if xml:
         parts.append('<?xml version="1.0"?>\n')
@@ -60,7 +66,13 @@ def body_of(version):
     return "".join(parts)
 
 
+def broken(version):
+    return version[0] == 0
+
+
 def macro_names(version):
+    if broken(version):
+        return []
     return sorted(m for i, m in enumerate(MACROS) if version[1] & (1 << i))
 
 
@@ -81,6 +93,8 @@ class Sim:
         self.loaded = {}         # (loader key, name) -> template
         self.n_reload_checks = 0
         self.lastread = {}       # path -> mtime when a template last read it
+        self.pages = {}          # pages that use load: (kept between uses)
+        self.users = {}
 
     # -- helpers -----------------------------------------------------------
     def path(self, d, n):
@@ -159,6 +173,9 @@ class Sim:
         if p not in self.files:
             return
         t = self.get_tmpl(p)
+        if broken(self.files[p][0]):
+            self.expect_failure(p, lambda: t.render(flag=True), "render")
+            return
         got = t.render(flag=True)
         want = self.fresh(self.files[p][0])
         if got != want:
@@ -170,11 +187,38 @@ class Sim:
             raise Violation("content_type %r, latest version is %r" % (
                 t.content_type, ct))
 
+    def expect_failure(self, p, fn, what):
+        """The latest version of the file does not compile: using the
+        template must fail the way a string template of that version does
+        (and never serve anything of an earlier version)."""
+        from chameleon import PageTemplate
+        self.lastread[p] = self.files[p][1]
+        self.cooks.pop(p, None)
+        try:
+            PageTemplate(body_of(self.files[p][0]))
+        except Exception as e:  # noqa: BLE001
+            want = type(e).__name__
+        else:
+            raise AssertionError("broken version compiles")
+        try:
+            got = fn()
+        except Exception as e:  # noqa: BLE001
+            if type(e).__name__ != want:
+                raise Violation("%s of a version that does not compile "
+                                "raised %s, a string template raises %s" % (
+                                    what, type(e).__name__, want))
+            return
+        raise Violation("%s of a version that does not compile (%s) gave %r"
+                        % (what, want, got))
+
     def op_macros(self, d, n):
         p = self.path(d, n)
         if p not in self.files:
             return
         t = self.get_tmpl(p)
+        if broken(self.files[p][0]):
+            self.expect_failure(p, lambda: sorted(t.macros.names), "macros")
+            return
         got = sorted(t.macros.names)
         want = macro_names(self.files[p][0])
         if got != want:
@@ -191,6 +235,9 @@ class Sim:
         name = MACROS[m]
         version = self.files[p][0]
         user = PageTemplate('<x metal:use-macro="t.macros[\'%s\']"/>' % name)
+        if broken(version):
+            self.expect_failure(p, lambda: user.render(t=t), "use_macro")
+            return
         if name in macro_names(version):
             got = user.render(t=t)
             want = "<b>%s%d</b>" % (name, version[0])
@@ -211,11 +258,15 @@ class Sim:
         p = self.path(d, n)
         if p not in self.files:
             return
+        if p not in self.tmpl_noreload and broken(self.files[p][0]):
+            return
         if p not in self.tmpl_noreload:
             t = self.tclass()(p, auto_reload=False)
             self.tmpl_noreload[p] = (t, list(self.files[p][0]))
         t, version = self.tmpl_noreload[p]
         first = t.n_cooks == 0
+        if first and broken(self.files[p][0]):
+            return
         got = t.render(flag=True)
         if first:
             # compiled lazily now: it shows the version present now
@@ -304,16 +355,24 @@ class Sim:
         early = self.path(0, other)
         if sib not in self.files or early not in self.files:
             return
+        if broken(self.files[sib][0]) or broken(self.files[early][0]):
+            return
         page = os.path.join(self.root, DIRS[d], "page%d_%d.pt" % (n, other))
-        with open(page, "w") as f:
-            f.write('<div metal:use-macro="load: %s.pt">x</div>' %
-                    NAMES[other])
-        if via_loader:
-            key, loader = self.loader(True, None)
-            t = loader.load(os.path.basename(page))
-        else:
-            t = PageTemplateFile(page, auto_reload=True, search_path=[
-                os.path.join(self.root, x) for x in DIRS])
+        # (the page is kept: a later use renders the same page object after
+        # the file it loads may have been rewritten)
+        t = self.pages.get((page, via_loader))
+        if t is None:
+            with open(page, "w") as f:
+                f.write('<div metal:use-macro="load: %s.pt">x</div>' %
+                        NAMES[other])
+            if via_loader:
+                key, loader = self.loader(True, None)
+                t = loader.load(os.path.basename(page))
+            else:
+                t = PageTemplateFile(page, auto_reload=True, search_path=[
+                    os.path.join(self.root, x) for x in DIRS])
+            self.pages[(page, via_loader)] = t
+        self.lastread[sib] = self.files[sib][1]
         got = t.render(flag=True)
         want = self.fresh(self.files[sib][0], macroname="x")
         wrong = self.fresh(self.files[early][0])
@@ -322,6 +381,75 @@ class Sim:
                 "load: inside %s resolved to %s" % (
                     page, "the earlier search directory" if got == wrong
                     else "something else: %r (expected %r)" % (got, want)))
+
+
+    def op_use_whole(self, d, n):
+        """The template object itself (not one of its macros) is the target
+        of metal:use-macro: the latest version must be included."""
+        from chameleon import PageTemplate
+        p = self.path(d, n)
+        if p not in self.files:
+            return
+        t = self.get_tmpl(p)
+        if "whole" not in self.users:
+            self.users["whole"] = PageTemplate(
+                '<x metal:use-macro="t">y</x>')
+        user = self.users["whole"]
+        version = self.files[p][0]
+        if broken(version):
+            self.expect_failure(p, lambda: user.render(t=t, flag=True),
+                                "use of the whole template")
+            return
+        got = user.render(t=t, flag=True)
+        want = self.fresh(version, macroname="t")
+        if got != want:
+            raise Violation("whole-template use gives %r, latest version "
+                            "gives %r" % (got, want))
+        self.lastread[p] = self.files[p][1]
+
+    def op_load_dotdir(self, d, n, form, auto_reload, ext):
+        """Names whose only dot is in a directory part: they have a dot, so
+        no default extension is added."""
+        sub = os.path.join(self.root, DIRS[d], "rel.2")
+        os.makedirs(sub, exist_ok=True)
+        base = NAMES[n]
+        for fn, text in ((base, "<p>plain %s</p>" % base),
+                         (base + ".pt", "<p>pt %s</p>" % base)):
+            fp = os.path.join(sub, fn)
+            if not os.path.exists(fp):
+                with open(fp, "w") as f:
+                    f.write(text)
+        key, loader = self.loader(auto_reload, ext)
+        if form == "rel":
+            spec = "rel.2/" + base
+        elif form == "dot":
+            spec = "./rel.2/" + base
+        else:
+            spec = os.path.join(sub, base)
+        want = None
+        if form == "abs":
+            want = spec
+        else:
+            for dd in DIRS:
+                cand = os.path.join(self.root, dd, "rel.2", base)
+                if os.path.exists(cand):
+                    want = cand
+                    break
+        t = loader.load(spec)
+        cached = self.loaded.get((key, spec))
+        if cached is not None:
+            if t is not cached:
+                raise Violation("load(%r) returned a different instance" %
+                                spec)
+            return
+        self.loaded[(key, spec)] = t
+        if os.path.realpath(str(t.filename)) != os.path.realpath(want):
+            raise Violation("load(%r) resolved to %s, expected %s (the name "
+                            "has a dot: no extension is added)" % (
+                                spec, t.filename, want))
+        got = t.render()
+        if got != "<p>plain %s</p>" % base:
+            raise Violation("load(%r) renders %r" % (spec, got))
 
 
 def run_ops(ops):
@@ -410,8 +538,8 @@ def campaign(args):
                                      run_state_machine_as_test)
     stats = {"machines": 0, "steps": 0, "nontrivial": set(), "ops": {},
              "failures": [], "samples": []}
-    versions = st.tuples(st.integers(1, 9), st.integers(0, 7),
-                         st.booleans()).map(list)
+    versions = st.tuples(st.sampled_from([0] + list(range(1, 10)) * 2),
+                         st.integers(0, 7), st.booleans()).map(list)
     mtimes = st.integers(1_000_000_000, 1_000_000_040)
     # biased so that histories keep coming back to the same file
     D = st.sampled_from([0, 1, 1, 1, 2])
@@ -478,6 +606,17 @@ def campaign(args):
         @rule(d=D, n=N, other=N, via=st.booleans())
         def use_load(self, d, n, other, via):
             self.do("use_load", d, n, other, via)
+
+        @rule(d=D, n=N)
+        def use_whole(self, d, n):
+            if self.sim.path(d, n) in self.rewritten:
+                self.interesting = True
+            self.do("use_whole", d, n)
+
+        @rule(d=D, n=N, form=st.sampled_from(["rel", "dot", "abs"]),
+              ar=st.booleans(), ext=st.sampled_from([None, ".pt", "pt"]))
+        def load_dotdir(self, d, n, form, ar, ext):
+            self.do("load_dotdir", d, n, form, ar, ext)
 
         def teardown(self):
             if self.interesting:
